@@ -46,6 +46,11 @@ CHECKS = {
              text='Exploration, exhaustive for the bounded part: all operation sequences of length <= 4 (quick) / 5 (thorough) over a 12-symbol alphabet, owning and non-owning managers, '
                   'plus seeded random sequences of length 50-400; the public view after every operation is compared with the model and the invariant walker runs inside every mutator.',
              ref='DESIGN.md section 2 C13'),
+ 'C08': dict(tech='exhaustive subset enumeration per generated inheritance graph through the real reader (ASan+UBSan) vs. a reference legality predicate transcribed from the property',
+             text='Exploration, exhaustive per graph: for each generated graph (<= 8 entities, every nesting of ONEOF/AND/ANDOR, ABSTRACT, implicit subtypes, two supertypes) every non-empty '
+                  'subset of entity names is written as a complex instance in canonical and shuffled part orders between sentinel instances; created(#k) must equal legal(G,T), sentinels '
+                  'must survive and the verdict must not depend on part order.',
+             ref='DESIGN.md section 2 C08'),
  'C01': dict(tech='reference-model monitor over recorded executions (independent Part 21 parser vs. files written by the real library) under ASan+UBSan',
              text='Exploration: seeded generated schemas x conforming populations x text variants are read and written by the real p21read/STEPfile '
                   'built with ASan+UBSan from the current tree; an independent Part 21 parser compares the written population value by value with the '
